@@ -63,7 +63,7 @@ def register(K):
     K.contract("analysis.AnalysisResults.to_string", params="self: analysis.AnalysisResults, verbosity: analysis.Severity = Severity.POSSIBLY_UNSAFE",
                returns="str", pure=True, ensures=[])
     K.contract("analysis.AnalysisResults.detailed_results", params="self: analysis.AnalysisResults", returns="dict", ensures=[],
-               loops={0: dict(invariant=[], modifies=[])})
+               loops={0: dict(invariant=[], modifies="infer")})
     K.contract("analysis.AnalysisResults.to_dict", params="self: analysis.AnalysisResults, verbosity: analysis.Severity = Severity.POSSIBLY_UNSAFE",
                returns="dict",
                ensures=["'severity' in result", "result['severity'] == self.severity.name"])
